@@ -63,7 +63,11 @@ class Recorder:
         self.inconclusive = 0
         self.excluded = {}
         self.extra = {}
+        self.sets = {}                 # named sets of hashes, merged by union over the shards
         self._sample_cap = 6
+
+    def setadd(self, name, key):
+        self.sets.setdefault(name, set()).add(key if isinstance(key, str) else khash(key))
 
     def case(self, n=1):
         self.evaluations += n
@@ -104,6 +108,7 @@ class Recorder:
             'inconclusive': self.inconclusive,
             'excluded': self.excluded,
             'extra': self.extra,
+            'sets': {k: sorted(v) for k, v in self.sets.items()},
         }
 
 
